@@ -2,6 +2,7 @@ import PercevalModel.Proto
 import PercevalModel.Model.C13
 import PercevalModel.Model.C13Kinds
 import PercevalModel.Model.C13Proc
+import PercevalModel.Model.C13Shape
 import PercevalModel.SimProto
 
 /-!
@@ -34,6 +35,12 @@ import PercevalModel.SimProto
     `T` a term `{"gen":[z,s]}` (source of noise `z` on ordinary input `s`), `{"genpol":[z,i]}`, `{"single":i}`
     (`SVDistribution` of polarised input `i`) — or `{"err":…}`.  Inputs and noise models are indices; `nS`, `nI` their
     photon numbers, `perfect` whether the source of noise `z` is perfect.
+
+  * `{"op":"shaped","fixed":b,"steps":[{"set":T} | {"bs":modes} | {"sv":[modes,…]} | {"svd":[[modes,…],…]}, …]}` →
+    `{"outs":[…],"wrap":[…]}`: the replies of ONE long-lived simulator object to requests of any input shape
+    (`sessionStep (shapeEnv env)` run from the fresh object): as `session`; `wrap` holds, per step, `null` for a
+    `set_circuit` or a refused shape and otherwise the flag `is_svd` of `dispatch` (the prepared input is wrapped in
+    an `SVDistribution` again).
 
   Trees: `{"plain":k,"U":rows}`, `{"pol":k,"U":rows}`, `{"wp":[c,s,c2,s2]}`, `{"pr":[c,s]}`,
   `{"pbs":true}`, `{"circ":m,"items":[{"off":o,"c":T},…]}`.
@@ -301,6 +308,32 @@ def handle (j : Json) : Json :=
         | Except.error _ => return Cmd.probs (← modesOf (← arrOf sj "q"))
       let outs := (SM.run (sessionStep (envGQ fixed)) ⟨none, none⟩ cmds).2
       return Json.mkObj [("outs", Json.arr (outs.map replyJson).toArray)]
+    | "shaped" =>
+      let fixed ← boolOf j "fixed"
+      let steps ← arrOf j "steps"
+      let cmds ← steps.toList.mapM fun (sj : Json) => do
+        match sj.getObjVal? "set" with
+        | Except.ok t => return Cmd.setCircuit (← evalTree t)
+        | Except.error _ =>
+          match sj.getObjVal? "bs" with
+          | Except.ok b => return Cmd.probs (Shape.bs (← modesOf (← b.getArr?)))
+          | Except.error _ =>
+            match sj.getObjVal? "sv" with
+            | Except.ok v =>
+              return Cmd.probs (Shape.sv (← (← v.getArr?).toList.mapM fun (b : Json) => do modesOf (← b.getArr?)))
+            | Except.error _ =>
+              let svs ← (← arrOf sj "svd").toList.mapM fun (v : Json) => do
+                (← v.getArr?).toList.mapM fun (b : Json) => do modesOf (← b.getArr?)
+              return Cmd.probs (Shape.svd svs)
+      let outs := (SM.run (sessionStep (shapeEnv (envGQ fixed))) ⟨none, none⟩ cmds).2
+      let wraps : List Json := cmds.map fun (cmd : Cmd (PComp GQ) (Shape (List (List (GQ × GQ))))) =>
+        match cmd with
+        | Cmd.setCircuit _ => Json.null
+        | Cmd.probs x =>
+          match dispatch x with
+          | Except.ok r => toJson r.2
+          | Except.error _ => Json.null
+      return Json.mkObj [("outs", Json.arr (outs.map replyJson).toArray), ("wrap", Json.arr wraps.toArray)]
     | _ => throw "unknown op") with
   | .ok r => r
   | .error e => errJson e
